@@ -189,8 +189,10 @@ Definition dims_decode (inp : list Z) : bool * nat * list dop :=
   | _ => (false, O, [])
   end.
 
+(* [fxd] = true: DeleteQuota takes the deleted quota's Guaranteed back from its ancestors — the code since
+   the repair of findings/C02-delete-keeps-guarantee.md *)
 Definition dims_run_case (inp : list Z) : list Z :=
-  let '(gate, K, ops) := dims_decode inp in drun_obs gate false K dmgr0 ops.
+  let '(gate, K, ops) := dims_decode inp in drun_obs gate true K dmgr0 ops.
 
 Definition dims_prop_case (inp obs : list Z) : Z :=
   let '(gate, K, ops) := dims_decode inp in dcheck gate K dobjs0 [] [] ops obs.
@@ -210,28 +212,14 @@ Fixpoint dcontended (gate : bool) (K : nat) (s : dobjs) (st : dmgr) (ops : list 
   | [] => false
   | o :: t =>
       let s' := dobjs_step gate s o in
-      let '(st', ob) := dobserve (ids K) (dstep gate false st o) in
+      let '(st', ob) := dobserve (ids K) (dstep gate true st o) in
       contended_in gate false s' ob || contended_in gate true s' ob || dcontended gate K s' st' t
   end.
 
 Definition dims_nontrivial_case (inp : list Z) : bool :=
   let '(gate, K, ops) := dims_decode inp in dcontended gate K dobjs0 dmgr0 ops.
 
-(* known finding 1 (findings/C02-delete-keeps-guarantee.md): with the gate on, DeleteQuota leaves the
-   deleted quota's guarantee in its ancestors' Allocated.  The shape: the gate is on, the implementation
-   reports exactly what the faithful model ([fxd] = false) reports, and the model with that one repair
-   ([fxd] = true) passes the decision procedure on this input — so nothing else is wrong. *)
-Fixpoint eq_lz2 (a b : list Z) : bool :=
-  match a, b with
-  | [], [] => true
-  | x :: a', y :: b' => (x =? y) && eq_lz2 a' b'
-  | _, _ => false
-  end.
-
-Definition dims_finding_sig (inp obs : list Z) : Z :=
-  let '(gate, K, ops) := dims_decode inp in
-  if gate
-     && eq_lz2 obs (drun_obs gate false K dmgr0 ops)
-     && (dcheck gate K dobjs0 [] [] ops (drun_obs gate true K dmgr0 ops) =? 0)
-     && negb (dcheck gate K dobjs0 [] [] ops obs =? 0)
-  then 1 else 0.
+(* no known finding: DeleteQuota leaving the deleted quota's guarantee in its ancestors
+   (findings/C02-delete-keeps-guarantee.md) is repaired in /repo and is a regression scenario now
+   (corpus/C02/dims/f2-delete-keeps-guarantee.case, Properties.c02_dims_delete_guarantee_refuted) *)
+Definition dims_finding_sig (inp obs : list Z) : Z := 0.
